@@ -16,6 +16,7 @@ F13 = "F13-switch-reference-terminal-key-change-reports-no-removals"
 F14 = "F14-switch-over-bundle-loses-value-on-key-change"
 F15 = "F15-switch-direct-branch-drops-empty-delta-ticks"
 F10 = "F10-nested-boundary-rebind-ticks-consumer-with-unchanged-value"
+F21 = "F21-nested-pass-through-keeps-following-deselected-target-after-silent-retarget"
 
 
 def gen_target(rng, wid, shape, end):
@@ -47,6 +48,18 @@ class C13:
     def gen(self, seed):
         rng = random.Random(seed)
         end = rng.choice((10, 16, 24))
+        if random.Random(seed ^ 0x5A11).random() < 0.15:
+            # the two targets are two positions inside ONE producing output (elements 0 and 1 of a TSL<TSB,2> writer): a retarget
+            # between them keeps the owning output and changes only the position
+            lw = gen_target(rng, 5, "TSLB", end)
+            c = ho.gen_ts_writer(rng, 3, end, values=[True, False], shape="TSBool", dense=rng.random() < 0.4)
+            stmts = ["elem 1 5 idx=0", "elem 2 5 idx=1", "ite 10 c=3 a=1 b=2", "cons 11 10", "cons 12 10"]
+            extra = rng.random()
+            if extra < 0.4:
+                stmts += ["npass 20 10", "cons 21 20"]
+            elif extra < 0.7:
+                stmts += ["nite 30 c=3 a=1 b=2", "cons 31 30"]
+            return dict(sc=dict(window=(0, end), writers=[lw, c], stmts=stmts), shape="TSB", split=1)
         shape = rng.choice(SHAPES)
         a = gen_target(rng, 1, shape, end)
         b = gen_target(rng, 2, shape, end)
@@ -79,6 +92,16 @@ class C13:
         if not ran or ran[0]["run"] != "ok":
             return Outcome(violation=dict(clause="run_threw", detail=ran[0].get("what", "")[:400] if ran else "no ran event"), digest=res.digest, sample=sample)
         ws = {w["id"]: w for w in sc["writers"]}
+        split = bool(case.get("split")) and 5 in ws
+        if split:
+            # the two targets are elements 0 and 1 of writer 5: their histories are the projections of the list's deltas
+            for i in (0, 1):
+                scr = {}
+                for t, ops in ws[5]["script"].items():
+                    proj = [["d", coll.jd(json.loads(o[1])[str(i)])] for o in ops if o[0] == "d" and str(i) in json.loads(o[1])]
+                    if proj:
+                        scr[t] = proj
+                ws[i + 1] = dict(id=i + 1, shape="TSB", script=scr)
         if not all(i in ws for i in (1, 2, 3)):
             return Outcome(stats={}, digest=res.digest, nontrivial=False, sample=sample)
         shape = coll.SHAPES[case["shape"]]
@@ -101,6 +124,8 @@ class C13:
             return oc.model_norm(shape, st) if any(tt <= t for tt in tl[i]) else None
 
         def ticked(i, t):
+            if split:
+                return t in ws[i]["script"]      # an element ticks in exactly the cycles in which the list's delta names it
             o = W.get(i, {}).get(t)
             return bool(o and o["m"])
 
@@ -179,6 +204,14 @@ class C13:
                         if not known:
                             known = F10
                             known_detail = "t=%d consumer %d below a nested boundary evaluated without cause, reading its previous value" % (t, c)
+                        continue
+                    if c == 21 and not valid and not retarget and ticked(other, t) and ci["v"] and oc.norm_value(shape, ci["val"], ci.get("ch")) == state_at(other, t):
+                        # known finding F21 (the other face of F3): the reference was retargeted to a target that holds no value - a
+                        # silent retarget at which the nested pass-through node is not evaluated - so its forwarding output still
+                        # points at the de-selected target, whose ticks keep reaching the consumer below the nested boundary
+                        if not known:
+                            known = F21
+                            known_detail = "t=%d consumer %d below the nested pass-through evaluated by a tick of the de-selected target (selected target holds no value)" % (t, c)
                         continue
                     v = ("consumer_evaluated_without_cause", "t=%d consumer %d evaluated (m=%d v=%d) but the selected target did not tick and no retarget to a valid target happened%s" % (
                         t, c, ci["m"], ci["v"], "; the unselected target ticked" if ticked(other, t) else ""))
@@ -274,9 +307,20 @@ class C13:
                     "wscript 2 6|d={\"added\":[1],\"removed\":[]}\nwriter 3 shape=TSBool\nwscript 3 0|d=false;;1|d=true\n"
                     "ite 10 c=3 a=1 b=2\ncons 11 10\nswsel 40 c=3 a=1 b=2 br=direct\ncons 41 40\n")
 
+    F21_SCENARIO = ("mode higher_order\nwindow 0 24\nwriter 1 shape=TSB\nwscript 1 1|d={\"a\":98,\"b\":44};;6|d={\"a\":69,\"b\":null}\n"
+                    "writer 2 shape=TSB\nwscript 2 12|d={\"a\":1,\"b\":2}\nwriter 3 shape=TSBool\nwscript 3 4|d=true;;5|d=false\n"
+                    "ite 10 c=3 a=1 b=2\ncons 11 10\nnpass 20 10\ncons 21 20\n")
+
     def demonstrate_known(self, k):
         """F14 makes every later reading of a bundle selected by switch_ meaningless, so that combination is not generated;
         the finding is re-demonstrated on every run by one fixed scenario instead (and silently disappears once repaired)."""
+        if k["id"] == F21:
+            # A valid, selected at 4; B (never valid so far) selected at 5; A ticks at 6: the direct consumer (11) is not evaluated,
+            # the consumer below the nested pass-through (21) is, and reads A's new value
+            res = runner.run(self.F21_SCENARIO, san=self.san)
+            t11 = [e["t"] for e in res.events if e["k"] == "C" and e["id"] == 11 and e["i"] is not None]
+            t21 = [e["t"] for e in res.events if e["k"] == "C" and e["id"] == 21 and e["i"] is not None]
+            return 6 not in t11 and 6 in t21
         if k["id"] == F15:
             # A ticks at t=2 with an empty delta: the if_then_else consumer (11) is evaluated, the switch consumer (41) is not
             res = runner.run(self.F15_SCENARIO, san=self.san)
